@@ -169,7 +169,14 @@ func (nm LNumber) Format(f fmt.State, c rune) {
 		formatCInteger(f, c, int64(nm))
 	case 'b', 'U':
 		defaultFormat(int64(nm), f, c)
-	case 'e', 'E', 'f', 'F', 'g', 'G':
+	case 'g', 'G':
+		if _, ok := f.Precision(); !ok {
+			// C's default precision is 6; Go's is "as many digits as needed"
+			defaultFormat(float64(nm), precState{f, 6}, c)
+		} else {
+			defaultFormat(float64(nm), f, c)
+		}
+	case 'e', 'E', 'f', 'F':
 		defaultFormat(float64(nm), f, c)
 	case 'i':
 		formatCInteger(f, 'd', int64(nm))
@@ -181,6 +188,14 @@ func (nm LNumber) Format(f fmt.State, c rune) {
 		}
 	}
 }
+
+// precState is a fmt.State with a fixed precision.
+type precState struct {
+	fmt.State
+	prec int
+}
+
+func (p precState) Precision() (int, bool) { return p.prec, true }
 
 // formatCInteger renders %d %o %u %x %X as C printf does.  Go's fmt differs: it
 // honours '+' and ' ' for the unsigned conversions, prefixes a zero value
